@@ -140,7 +140,7 @@ theorem parseNumberOrSpecial_sound (tag : Nat) (ws : List Nat) (hws : IsWs ws) (
     (hc : ∃ c r, st.rest = c :: r ∧ (isDigit c = true ∨ c = 46)) :
     SoundP tag ws st (parseNumberOrSpecial tag st) := by
   intro ev st' h
-  have hg := parseNumberOrSpecial_good (ap := true) tag st (Or.inl rfl)
+  have hg := parseNumberOrSpecial_good (ap := true) tag st hc
   rw [h] at hg
   obtain ⟨⟨tok, htok⟩, hdep, hsex⟩ := hg
   refine ⟨⟨hdep, hsex⟩, Primary.atom ws tok ev, ?_, rfl, ?_, ?_⟩
